@@ -1,0 +1,52 @@
+//! Verification hooks, compiled only with `--cfg folo_verif` (set by the external verification
+//! harness). With the guard off nothing in this module, and none of the `#[cfg(folo_verif)]`
+//! statements that call into it, is compiled.
+//!
+//! Hook H6: named yield points around the shared-memory steps of the regional value protocol
+//! (slot load, compare-and-swap, store, invalidate) and a cooperative form of the blocking wait
+//! inside `initialize()`. The harness installs two function pointers; until it does, every hook
+//! is a no-op and the crate behaves exactly as without the guard.
+
+use std::sync::OnceLock;
+
+/// Passed as the index of a yield point that has none.
+pub const NO_INDEX: u64 = u64::MAX;
+
+/// The function pointers a harness installs.
+#[derive(Clone, Copy, Debug)]
+pub struct Hooks {
+    /// Called before a named step; the second argument is an index (for example the position of a
+    /// region in the invalidation loop) or [`NO_INDEX`].
+    pub point: fn(&'static str, u64),
+    /// Called before a named blocking wait; must return only once `ready()` returned true and no
+    /// other thread could have run in between. `ready` never blocks.
+    pub block_until: fn(&'static str, &dyn Fn() -> bool),
+}
+
+static HOOKS: OnceLock<Hooks> = OnceLock::new();
+
+/// Installs the hooks for the whole process. Only the first call has an effect.
+pub fn install(hooks: Hooks) {
+    let _previous = HOOKS.set(hooks);
+}
+
+#[inline]
+pub(crate) fn point(name: &'static str) {
+    if let Some(hooks) = HOOKS.get() {
+        (hooks.point)(name, NO_INDEX);
+    }
+}
+
+#[inline]
+pub(crate) fn point_at(name: &'static str, index: u64) {
+    if let Some(hooks) = HOOKS.get() {
+        (hooks.point)(name, index);
+    }
+}
+
+#[inline]
+pub(crate) fn block_until(name: &'static str, ready: &dyn Fn() -> bool) {
+    if let Some(hooks) = HOOKS.get() {
+        (hooks.block_until)(name, ready);
+    }
+}
